@@ -95,3 +95,29 @@ def occupancy_flags(info):
     """Part 303 Table: bit0 movement, bit1 occupied, bit2 repeat, bit3 sensor type (1 = movement sensor)"""
     return {"movement": (info & 1) != 0, "occupied": (info & 2) != 0, "repeat": (info & 4) != 0,
             "sensor_is_movement": (info & 8) != 0}
+
+
+# ----------------------------------------------------------------------------- independent encoder (oracle of C03)
+# instance types by part number of the standard (IEC 62386-301 / -303 / -304)
+INSTANCE_TYPE_OF_MODULE = {"dali.device.pushbutton": PUSHBUTTON_TYPE, "dali.device.occupancy": OCCUPANCY_TYPE,
+                           "dali.device.light": LIGHT_TYPE}
+PUSHBUTTON_CODE = {name: code for code, name in PUSHBUTTON_EVENTS.items()}
+
+
+def encode_event(scheme, info, short_address=0, instance_number=0, device_group=0, instance_group=0, instance_type=0):
+    """the 24-bit event frame Table 3 assigns to a source given in `scheme` (bit 16 = 0)"""
+    if scheme == "device":
+        return (short_address << 17) | (instance_type << 10) | info
+    if scheme == "device/instance":
+        return (short_address << 17) | (1 << 15) | (instance_number << 10) | info
+    if scheme == "device group":
+        return (1 << 23) | (device_group << 17) | (instance_type << 10) | info
+    if scheme == "instance":
+        return (1 << 23) | (instance_type << 17) | (1 << 15) | (instance_number << 10) | info
+    if scheme == "instance group":
+        return (1 << 23) | (1 << 22) | (instance_group << 17) | (instance_type << 10) | info
+    raise ValueError(scheme)
+
+
+def occupancy_info(movement, occupied, repeat, sensor_is_movement):
+    return ite(movement, 1, 0) | ite(occupied, 2, 0) | ite(repeat, 4, 0) | ite(sensor_is_movement, 8, 0)
